@@ -86,7 +86,7 @@ def _req_result(r):
             bool(r.persisted), bool(r.chunked))
 
 
-def feed_req(chunks):
+def feed_req(chunks, want_started=False):
     """drive serving.Requestant the way Server.serviceReqs / serviceReps do: parse after every read; when a message
     ended: errored -> connection closed; persisted -> makeParser() and go on with the leftover; else stop."""
     from hio.core.http import serving
@@ -116,6 +116,8 @@ def feed_req(chunks):
                 r.makeParser()
     if tail is None:
         tail = ("more" if live else "stop", bytes(msg))
+    if want_started:
+        return (out, tail, bool(live and r.started))
     return (out, tail)
 
 
@@ -163,7 +165,7 @@ def feed_resp(method, chunks, closed):
             elif not r.persisted:
                 state["live"] = False
             else:
-                r.reinit()
+                r.reinit(method=method)     # Client.transmit(method=...) for the next request of the same kind
                 r.makeParser()
 
     for c in chunks:
@@ -274,6 +276,8 @@ class FakeSock:
             raise OSError(errno.EBADF, "closed")
         if self.gate:
             self.gate = False
+            while self.frags and not self.frags[0]:
+                self.frags.pop(0)     # an empty read would mean "closed"
             if self.frags:
                 return bytes(self.frags.pop(0))
             if self.close_after:
@@ -452,8 +456,8 @@ def whatwg_events(stream, eof_cr_pending=True):
             if "\0" not in value:
                 leid = value
         elif field == "retry":
-            if value and all(c in "0123456789" for c in value):
-                retry = int(value)
+            if value and all(c in "0123456789" for c in value) and len(value) <= 4300:
+                retry = int(value)      # (a reconnection time of more than 4300 digits is beyond CPython's int(); ignored)
     return ([(a.encode('utf-8'), b.encode('utf-8'), c.encode('utf-8')) for a, b, c in events], leid.encode('utf-8'), retry)
 
 
@@ -659,7 +663,7 @@ def gen_sse_stream(rng, invalid_utf8=False):
             elif k < 0.72:
                 line = b"event" + rng.choice([b": ", b":"]) + rng.choice(["add", "msg", "", "x y"]).encode('utf-8')
             elif k < 0.84:
-                line = b"retry" + rng.choice([b": ", b":"]) + rng.choice(["5", "3000", "+5", "1_0", " 5", "5 ", "", "12a", "007", "-1", "²"]).encode('utf-8')
+                line = b"retry" + rng.choice([b": ", b":"]) + rng.choice(["5", "3000", "+5", "1_0", " 5", "5 ", "", "12a", "007", "-1", "²", "１２", "٣"]).encode('utf-8')
             elif k < 0.92:
                 line = b":" + rng.choice(["", " comment", "data: no"]).encode()
             else:
@@ -709,3 +713,229 @@ def mutate_bytes(rng, data, k=None):
             if i >= 0:
                 data[i:i + 8] = rng.choice([b"HTTP/2.0", b"HTTP/1", b"http/1.1", b"HTP/1.1", b"HTTP/1.1x", b"HTTP/0.9"])
     return bytes(data)
+
+
+# --------------------------------------------------------------------------------------------------------------
+# case kinds shared by C13 / C15 / C16 / C17 (cases are plain literals; see each property for its generators)
+#   ("req",  data, cuts, expect|None)                 serving.Requestant, pipelined
+#   ("resp", head, data, cuts, closed, expect|None)   clienting.Respondent (+ far side closing)
+#   ("sse",  stream, cuts)                            httping.EventSource alone
+#   ("sser", mode, stream, sizes, cuts)               event stream inside a response: mode close | chunked
+#   ("chunks", data, cuts)                            httping.parseChunk in a loop
+#   ("enc",  body, sizes, exts, trailers, cuts)       chunked coding built from the literals, decoded by parseChunk
+#   ("pack", (payload, ...), cuts)                    httping.packChunk of each payload + packChunk(b""), decoded by parseChunk
+#   ("srv",  kind, ((data, cuts, close), ...))        Server (wsgi) / BareServer service loop, one entry per connection
+#   ("cli",  data, cuts, close, scheme)               Client service loop on response bytes
+
+def enc_wire(body, sizes, exts, trailers):
+    """deterministic chunked coding: chunk i has sizes[i] bytes (last one takes the rest), exts[i] appended verbatim
+    (already starting with ';'), trailers [(k, v)]"""
+    out = bytearray()
+    i = 0
+    k = 0
+    chunks = []
+    while i < len(body):
+        n = sizes[k] if k < len(sizes) else len(body) - i
+        n = max(1, min(n, len(body) - i))
+        c = body[i:i + n]
+        i += n
+        chunks.append(c)
+        out += (b"%x" % n) + (exts[k] if k < len(exts) else b"") + b"\r\n" + c + b"\r\n"
+        k += 1
+    out += b"0" + (exts[k] if k < len(exts) else b"") + b"\r\n"
+    for kk, vv in trailers:
+        out += kk + b": " + vv + b"\r\n"
+    out += b"\r\n"
+    return bytes(out), chunks
+
+
+def sser_wire(mode, stream, sizes):
+    head = b"HTTP/1.1 200 OK\r\nContent-Type: text/event-stream\r\n"
+    if mode == "chunked":
+        wire, _ = enc_wire(stream, sizes, [], [])
+        return head + b"Transfer-Encoding: chunked\r\n\r\n" + wire
+    return head + b"\r\n" + stream
+
+
+def case_data(case):
+    k = case[0]
+    if k in ("req", "sse", "chunks"):
+        return case[1]
+    if k == "resp":
+        return case[2]
+    if k == "sser":
+        return sser_wire(case[1], case[2], case[3])
+    if k == "enc":
+        return enc_wire(case[1], case[2], case[3], case[4])[0]
+    if k == "cli":
+        return case[1]
+    if k == "pack":
+        from hio.core.http import httping
+        return b"".join(bytes(httping.packChunk(p)) for p in case[1]) + bytes(httping.packChunk(b""))
+    return b""
+
+
+def case_cuts(case):
+    ix = {"req": 2, "resp": 3, "sse": 2, "sser": 4, "chunks": 2, "enc": 5, "cli": 2, "pack": 2}.get(case[0])
+    return case[ix] if ix is not None else None
+
+
+def frags_of(case):
+    return split_at(case_data(case), case_cuts(case) or ())
+
+
+def run_case(case):
+    """REAL code on the case -> canonical observation"""
+    k = case[0]
+    if k == "req":
+        fr = frags_of(case)
+        return (feed_req(fr), feed_req([case[1]]))
+    if k == "resp":
+        fr = frags_of(case)
+        m = "HEAD" if case[1] else "GET"
+        return (feed_resp(m, fr, case[4]), feed_resp(m, [case[2]], case[4]))
+    if k == "sser":
+        fr = frags_of(case)
+        d = case_data(case)
+        closed = case[1] == "close"
+        return (feed_resp("GET", fr, closed), feed_resp("GET", [d], closed))
+    if k == "sse":
+        fr = frags_of(case)
+        return (feed_sse(fr), feed_sse([case[1]]))
+    if k in ("chunks", "enc", "pack"):
+        fr = frags_of(case)
+        return (feed_chunks(fr), feed_chunks([case_data(case)]))
+    if k == "srv":
+        conns = [(split_at(d, c), cl) for d, c, cl in case[2]]
+        multi = run_server(case[1], conns)
+        alone = [run_server(case[1], [c]) for c in conns] if len(conns) > 1 else [multi]
+        return (multi, alone)
+    if k == "cli":
+        return (run_client(split_at(case[1], case[2]), case[3], scheme=case[4]),)
+    raise ValueError(f"bad case kind {k!r}")
+
+
+def request_of(case):
+    """what the model driver is asked (same inputs; urllib's verdict on the request targets is a parameter)"""
+    k = case[0]
+    if k == "req":
+        return ("req", frags_of(case), bad_urls(case[1]))
+    if k == "resp":
+        return ("resp", bool(case[1]), frags_of(case), bool(case[4]))
+    if k == "sser":
+        return ("resp", False, frags_of(case), case[1] == "close")
+    if k == "sse":
+        return ("sse", frags_of(case))
+    if k in ("chunks", "enc", "pack"):
+        return ("chunks", frags_of(case))
+    if k == "srv":
+        alld = b" ".join(d for d, _, _ in case[2])
+        return ("srv", case[1], [(split_at(d, c), bool(cl)) for d, c, cl in case[2]], bad_urls(alld))
+    if k == "cli":
+        return ("cli", split_at(case[1], case[2]), bool(case[3]))
+    raise ValueError(f"bad case kind {k!r}")
+
+
+def view_of(case, obs):
+    """the part of the observation the model predicts"""
+    k = case[0]
+    if k == "srv":
+        multi = obs[0]
+        if case[1] == "wsgi":
+            # a peer that closes is dropped at the next cycle: how many of its pipelined requests were answered by then
+            # is timing, not parsing -> not compared
+            # is timing, not parsing -> not compared.  Likewise a connection delivered in several reads or ending inside a
+            # request: Server.serviceReps may close it while a non persistent follow-up request is still incomplete (a
+            # defect of the responder bookkeeping, property C18) so counts are compared for whole, complete deliveries only.
+            out = []
+            for (n, o), (d, cuts, cl) in zip(multi[1], case[2]):
+                if cl or cuts:
+                    out.append((None, None))
+                    continue
+                msgs, tail, started = feed_req([d], want_started=True)
+                if started:          # ends inside a request
+                    out.append((None, None))
+                else:
+                    out.append((n, o))
+            return (multi[0], out)
+        return (multi[0],)
+    if k == "cli":
+        return (obs[0][0],)
+    return obs
+
+
+def shrink_case(case):
+    """smaller variants: fewer cuts, shorter data"""
+    k = case[0]
+    idx = {"req": (1, 2), "resp": (2, 3), "sse": (1, 2), "chunks": (1, 2), "cli": (1, 2)}.get(k)
+    if idx:
+        di, ci = idx
+        data, cuts = case[di], tuple(case[ci])
+        def mk(d, c):
+            c = tuple(sorted(set(x for x in c if 0 < x < len(d))))
+            lst = list(case)
+            lst[di] = d
+            lst[ci] = c
+            if k in ("req", "resp"):
+                lst[-1] = None     # the intent no longer applies
+            return tuple(lst)
+        if cuts:
+            yield mk(data, ())
+            for i in range(len(cuts)):
+                yield mk(data, cuts[:i] + cuts[i + 1:])
+        n = len(data)
+        for a, b in ((n // 2, n), (0, n // 2)):
+            if b - a > 0 and n > 1:
+                yield mk(data[:a] + data[b:], cuts)
+        if n <= 400:
+            for i in range(n):
+                yield mk(data[:i] + data[i + 1:], tuple(x if x <= i else x - 1 for x in cuts))
+    elif k == "sser":
+        _, mode, stream, sizes, cuts = case
+        if cuts:
+            yield (k, mode, stream, sizes, ())
+        for i in range(len(stream)):
+            s2 = stream[:i] + stream[i + 1:]
+            yield (k, mode, s2, sizes, tuple(x for x in cuts if x < len(sser_wire(mode, s2, sizes))))
+    elif k == "enc":
+        _, body, sizes, exts, trailers, cuts = case
+        if cuts:
+            yield (k, body, sizes, exts, trailers, ())
+        if trailers:
+            yield (k, body, sizes, exts, trailers[:-1], ())
+        if exts:
+            yield (k, body, sizes, exts[:-1], trailers, ())
+        for i in range(len(body)):
+            yield (k, body[:i] + body[i + 1:], sizes, exts, trailers, ())
+    elif k == "pack":
+        _, ps, cuts = case
+        if cuts:
+            yield (k, ps, ())
+        for i in range(len(ps)):
+            yield (k, ps[:i] + ps[i + 1:], ())
+            if len(ps[i]) > 1:
+                yield (k, ps[:i] + (ps[i][:len(ps[i]) // 2],) + ps[i + 1:], ())
+    elif k == "srv":
+        _, kind, conns = case
+        for i in range(len(conns)):
+            if len(conns) > 1:
+                yield (k, kind, conns[:i] + conns[i + 1:])
+        for i, (d, c, cl) in enumerate(conns):
+            if c:
+                yield (k, kind, conns[:i] + ((d, (), cl),) + conns[i + 1:])
+            n = len(d)
+            if n > 1:
+                for a, b in ((n // 2, n), (0, n // 2)):
+                    yield (k, kind, conns[:i] + ((d[:a] + d[b:], (), cl),) + conns[i + 1:])
+            if n <= 200:
+                for j in range(n):
+                    yield (k, kind, conns[:i] + ((d[:j] + d[j + 1:], (), cl),) + conns[i + 1:])
+
+
+def has_escape(obs_part):
+    """('escaped', cls) anywhere in a parser-level observation"""
+    if isinstance(obs_part, tuple) and len(obs_part) == 2 and obs_part[0] == "escaped":
+        return True
+    if isinstance(obs_part, (tuple, list)):
+        return any(has_escape(x) for x in obs_part)
+    return False
